@@ -38,23 +38,23 @@ func c10methods() []c10method {
 		{"Clear", func(s tcell.Screen, i int) { s.Clear() }, true},
 		{"Fill", func(s tcell.Screen, i int) { s.Fill(rune('a'+i%26), st(i)) }, true},
 		{"SetCell", func(s tcell.Screen, i int) {
-			if i%3 == 0 {
-				s.SetCell(i%4, i%2, st(i), 'e', rune(0x301+i%2), rune(0x323+i%2)) // combining marks, few cells
+			if i%2 == 0 {
+				s.SetCell(i%4, (i/4)%2, st(i), 'e', rune(0x301+i%2), rune(0x323+i%3)) // combining marks, few cells
 			} else {
 				s.SetCell(i%40, i%10, st(i), rune('A'+i%26))
 			}
 		}, true},
 		{"GetContent", func(s tcell.Screen, i int) {
 			// the application looks at what it got back (a few cells hold combining marks)
-			if i%2 == 0 {
-				c10useResult(s.GetContent(i%4, i%2))
+			if i%3 != 0 {
+				c10useResult(s.GetContent(i%4, (i/4)%2))
 			} else {
 				c10useResult(s.GetContent(i%40, i%10))
 			}
 		}, true},
 		{"SetContent", func(s tcell.Screen, i int) {
-			if i%3 == 0 {
-				s.SetContent(i%4, i%2, 'o', []rune{rune(0x308 + i%2), rune(0x331 + i%2)}, st(i))
+			if i%2 == 0 {
+				s.SetContent(i%4, (i/4)%2, 'o', []rune{rune(0x308 + i%2), rune(0x331 + i%3)}, st(i))
 			} else {
 				s.SetContent(i%40, i%10, rune('0'+i%10), nil, st(i))
 			}
@@ -303,6 +303,12 @@ func c10runJob(j c10job) (out c10out) {
 	var wg sync.WaitGroup
 	var pan atomic.Value
 	var othersLeft, pollersLeft int32
+	usesResult := false
+	for _, n := range j.Methods {
+		if n == "GetContent" {
+			usesResult = true
+		}
+	}
 	for _, n := range j.Methods {
 		if n == "PollEvent" {
 			pollersLeft++
@@ -326,8 +332,20 @@ func c10runJob(j c10job) (out c10out) {
 			// a full redraw of the styled screen through the reference terminal costs ~100x a
 			// cell update under the race detector: drawing loops run an eighth of the count
 			n := j.Iters
-			if (m.name == "Sync" || m.name == "Show") && n > 100 {
-				n = max(100, n/8)
+			if m.name == "Sync" || m.name == "Show" {
+				if n > 100 {
+					n = max(100, n/8)
+				}
+			} else if n <= 200 {
+				// cheap calls: long enough loops that the two goroutines really overlap; the
+				// race on a value handed out by GetContent needs the reader to still be looking
+				// when a later writer comes by, so those jobs run longer still
+				n *= 8
+				if usesResult {
+					n *= 5
+				}
+			} else {
+				n *= 4
 			}
 			for i := 0; i < n; i++ {
 				m.f(s, i)
